@@ -448,6 +448,7 @@ def handleLine (s : CSt) (line : String) : CSt :=
   | ["I", _, raw] => { s with curRaw := hexB raw, lastL := none }
   | "L" :: fs => handleL s fs
   | "D" :: fs => handleD s fs
+  | ["DK", res] => s.spec "C12" "noPanic" (res != "PANIC") "DecodeRawEntry with a link key"
   | ["A", res] => s.spec "C12" "noPanic" (res == "ok") s!"accessors {res}"
   | ["IM", _, raw] => { s with curRaw := hexB raw }
   | "LM" :: fs =>
